@@ -48,6 +48,26 @@ def rand_value(rng, depth=0, maxdepth=3):
 
 # ------------------------------------------------------------------ JSON spelling (RFC 8259 only)
 WS = [b"", b"", b" ", b"\n", b"\t", b"\r\n ", b"  "]
+COMMENT_P = 0.0     # probability that a piece of inter-token space holds a comment (builds with comments enabled)
+
+
+def rand_comment(rng):
+    """A complete comment: block comments may hold stars and slashes (but no terminator) and may end
+    with several stars; line comments end with a newline."""
+    if rng.random() < 0.6:
+        while True:
+            body = bytes(rng.choice(b"**/ x\n\"[/") for _ in range(rng.randrange(6)))
+            if (body + b"*/").find(b"*/") == len(body):
+                return b"/*" + body + b"*/"
+    body = bytes(rng.choice(b"*/ x\"[/") for _ in range(rng.randrange(5)))
+    return b"//" + body + b"\n"
+
+
+def ws(rng):
+    w = rng.choice(WS)
+    if COMMENT_P and rng.random() < COMMENT_P:
+        w += rand_comment(rng) + rng.choice(WS)
+    return w
 NAMED = {0x22: b'\\"', 0x5C: b"\\\\", 0x2F: b"\\/", 0x08: b"\\b", 0x0C: b"\\f", 0x0A: b"\\n", 0x0D: b"\\r", 0x09: b"\\t"}
 
 
@@ -108,14 +128,14 @@ def spell(rng, v, unicode_on=True):
     if t == "s":
         return spell_string(rng, bytes(v["b"]), unicode_on)
     if t == "a":
-        parts = [rng.choice(WS) + spell(rng, e, unicode_on) + rng.choice(WS) for e in v["c"]]
-        return b"[" + (b",".join(parts) if parts else rng.choice(WS)) + b"]"
+        parts = [ws(rng) + spell(rng, e, unicode_on) + ws(rng) for e in v["c"]]
+        return b"[" + (b",".join(parts) if parts else ws(rng)) + b"]"
     if t == "o":
         parts = []
         for m in v["c"]:
-            parts.append(rng.choice(WS) + spell_string(rng, bytes(m["b"]), unicode_on) + rng.choice(WS) + b":" +
-                         rng.choice(WS) + spell(rng, m["c"][0], unicode_on) + rng.choice(WS))
-        return b"{" + (b",".join(parts) if parts else rng.choice(WS)) + b"}"
+            parts.append(ws(rng) + spell_string(rng, bytes(m["b"]), unicode_on) + ws(rng) + b":" +
+                         ws(rng) + spell(rng, m["c"][0], unicode_on) + ws(rng))
+        return b"{" + (b",".join(parts) if parts else ws(rng)) + b"}"
     raise ValueError(t)
 
 
@@ -175,20 +195,25 @@ def nesting(v):
 
 def gen_valid(rng, o, n, want_out):
     """Valid RFC 8259 texts; want_out[i] is the value each text means."""
+    global COMMENT_P
     out = []
     for _ in range(n):
+        COMMENT_P = 0.2 if o["comments"] and rng.random() < 0.3 else 0.0
         v = rand_value(rng)
         spelled, meant = with_duplicates(rng, v) if rng.random() < 0.3 else (v, v)
-        text = rng.choice(WS) + spell(rng, spelled, o["unicode"]) + rng.choice(WS)
+        text = ws(rng) + spell(rng, spelled, o["unicode"]) + ws(rng)
         need = max(nesting(meant), nesting(spelled))  # a value that is overwritten later is still parsed
         out.append(line(text, o, lim=max(need, rng.choice([need, 10, 255])), tag="valid"))
         want_out.append(meant)
+    COMMENT_P = 0.0
     return out
 
 
 def gen_mutants(rng, o, n):
+    global COMMENT_P
     out = []
     for _ in range(n):
+        COMMENT_P = 0.2 if o["comments"] and rng.random() < 0.3 else 0.0
         v = rand_value(rng)
         text = bytearray(spell(rng, v, o["unicode"]))
         how = rng.randrange(6)
@@ -206,6 +231,7 @@ def gen_mutants(rng, o, n):
             text += rng.choice([b" x", b",", b"]", b" 1", b"\x00[", b"//c\n", b"/*c*/"])     # trailing bytes
         out.append(line(bytes(text), o, lim=rng.choice([0, 1, 2, 10, 255]), tag="mutant",
                         f=rand_filter(rng) if rng.random() < 0.3 else TRUE))
+    COMMENT_P = 0.0
     return out
 
 
@@ -313,7 +339,8 @@ def gen_sessions(rng, o, n):
                 sep = b" "
             text += sep + s
         text += rng.choice(seps)
-        out.append(line(text, o, lim=10, tag="session", session=k + 1))
+        out.append(line(text, o, lim=10, tag="session", session=k + 1,
+                        f=rand_filter(rng) if rng.random() < 0.3 else TRUE))
     return out
 
 
